@@ -13,6 +13,9 @@ func VH_witness_program_dispatch() {
 	L := []int{2, 20, 32, 33}[vNondetLen("plen", 3)]
 	prog := vNondetBytes("prog", L)
 	vm := &Engine{witnessVersion: ver, witnessProgram: prog, bip16: vNondetBool("nestedInP2SH")}
+	// state after the script that pushed the program: version number and program are on the data stack
+	vm.dstack.PushByteArray([]byte{byte(ver)})
+	vm.dstack.PushByteArray(prog)
 	taproot, discourage := vNondetBool("taprootFlag"), vNondetBool("discourageFlag")
 	if taproot {
 		vm.flags |= ScriptVerifyTaproot
@@ -40,7 +43,12 @@ func VH_witness_program_dispatch() {
 	case discourage:
 		vAssert(err != nil && IsErrorCode(err, ErrDiscourageUpgradableWitnessProgram), "upgradeable programs are refused by policy")
 	default:
-		vAssert(err == nil, "upgradeable witness programs (including P2SH-nested v1) are anyone-can-spend under consensus rules")
+		// the program itself is the top stack item: an all-zero program evaluates to false like any script result
+		if asBool(prog) {
+			vAssert(err == nil, "upgradeable witness programs (including P2SH-nested v1) are anyone-can-spend under consensus rules")
+		} else {
+			vAssert(err != nil && IsErrorCode(err, ErrEvalFalse), "a false top stack item fails the script")
+		}
 	}
 	vReach("end")
 }
